@@ -11,8 +11,11 @@ const PATHS: &[&str] = &[
     "/", "/a", "/a/b", "/a/b/c", "/ab", "/b", "/a/", "/a/x/c", "/x.html", "/a/x.html", "/é/ü", "/xyz", "/x1y2z", "//", "/A",
     "/a/b?q=/zzz", "/?x", "/a?*", "/nothing/here",
 ];
-const HOST_PATTERNS: &[&str] = &["example.com", "*.example.com", "a.*", "*:8080", "localhost", "*.com", "ex*le.com", "é.example.com"];
-const HOSTS: &[&str] = &["", "example.com", "a.example.com", "a.b.example.com", "example.com:8080", "localhost", "other.org", "a.x", "é.example.com", "EXAMPLE.COM"];
+// host patterns are compared with the Host value as the client wrote it, byte for byte: spellings with capitals on either side
+const HOST_PATTERNS: &[&str] = &["example.com", "*.example.com", "a.*", "*:8080", "localhost", "*.com", "ex*le.com", "é.example.com",
+                                 "Api.Example.com", "*.Example.COM", "LOCALHOST", "É.example.com"];
+const HOSTS: &[&str] = &["", "example.com", "a.example.com", "a.b.example.com", "example.com:8080", "localhost", "other.org", "a.x", "é.example.com", "EXAMPLE.COM",
+                         "Api.Example.com", "api.example.com", "API.EXAMPLE.COM", "x.Example.COM", "x.example.com", "LOCALHOST", "Localhost", "É.example.com"];
 
 // ---------------------------------------------------------------------------------------------
 // large applications and long values
